@@ -224,6 +224,27 @@ pub fn generate(rng: &mut Rng, thorough: bool) -> Vec<Case> {
         }
         cs.push(Case::new(523, args, "admission-matrix"));
     }
+    // every shape an authority can take (the admission rule asks for its presence, not for a syntax the
+    // server would have to guess): IPv6 literals with and without port, IPv4, names, ports at the limits
+    for auth in ["[::1]", "[2001:db8::7]", "[::1]:4433", "[fe80::1%25eth0]:443", "example.com", "example.com:443", "1.2.3.4", "1.2.3.4:65535",
+                 "a.b.c.d.e:1", "xn--e1afmkfd.xn--p1ai", "host_with_underscore", "UPPER.example", "localhost:0", "user@host:8443"] {
+        let mut args = vec![];
+        for g in good {
+            let v = if g.0 == ":authority" { auth } else { g.1 };
+            args.push(b2a(g.0.as_bytes()));
+            args.push(b2a(v.as_bytes()));
+        }
+        cs.push(Case::new(523, args, "admission-authority-shapes"));
+    }
+    for path in ["/", "/a?b=c", "/%F0%9F%98%80", "/a//b/./c", "*", "/very/long/path/with/many/segments/and/a/query?x=1&y=2&z=3"] {
+        let mut args = vec![];
+        for g in good {
+            let v = if g.0 == ":path" { path } else { g.1 };
+            args.push(b2a(g.0.as_bytes()));
+            args.push(b2a(v.as_bytes()));
+        }
+        cs.push(Case::new(523, args, "admission-path-shapes"));
+    }
     // one pseudo-header missing, a regular field of similar meaning in its place: not a substitute
     for (i, alikes) in [vec![("method", "CONNECT"), ("x-http-method-override", "CONNECT")], vec![("scheme", "https"), ("x-forwarded-proto", "https")],
                         vec![("protocol", "webtransport"), ("upgrade", "webtransport")], vec![("host", "a"), ("authority", "a"), ("x-forwarded-host", "a"), ("Host", "a")],
